@@ -312,3 +312,89 @@ pub fn build_with(spec: &Net, shapes: &[LShape], params: &[P<f32>]) -> Result<Ne
     crate::util::guard(|| libnet::set_params(&mut net, spec, shapes, params))?;
     Ok(net)
 }
+
+// ---------------------------------------------------------------------------------------------
+// prediction vs reference interpreter (used by the structural properties C11, C16, C17)
+// ---------------------------------------------------------------------------------------------
+pub enum Mismatch {
+    Rejected(String),
+    Panics(String),
+    Shape(String),
+    Value(String),
+}
+
+pub struct PredictOk {
+    pub exact: bool,
+    pub nontrivial: bool,
+    pub lib_out: Vec<f32>,
+}
+
+/// exact-arithmetic data for structural checks: weights in {-1,0,1,2}, inputs small integers scaled by `unit`
+pub fn structural_params(net: &Net, shapes: &[LShape], seed: u64, key: &str) -> Vec<P<f32>> {
+    let mut r = Rng::new(seed, fnv(key) ^ 0x5555);
+    make_params(net, shapes, &mut |_, kind, n| {
+        (0..n).map(|_| if kind == "b" { [0.0, 1.0, -1.0][r.below(3)] } else { [-1.0, 0.0, 1.0, 2.0, 1.0][r.below(5)] }).collect()
+    })
+}
+
+pub fn structural_input(n: usize, unit: f32, seed: u64, key: &str) -> Vec<f32> {
+    let mut r = Rng::new(seed, fnv(key) ^ 0x6666);
+    (0..n).map(|_| unit * (r.below(7) as f32 - 3.0)).collect()
+}
+
+pub fn compare_out(lib: &[f32], reff: &[f64], tol: f64) -> Result<bool, String> {
+    if lib.len() != reff.len() {
+        return Err(format!("{} elements, reference has {}", lib.len(), reff.len()));
+    }
+    let scale = reff.iter().fold(1.0f64, |m, v| m.max(v.abs()));
+    let mut exact = true;
+    for i in 0..lib.len() {
+        if !lib[i].is_finite() {
+            return Err(format!("element {} is {}", i, lib[i]));
+        }
+        if lib[i] as f64 != reff[i] {
+            exact = false;
+            if (lib[i] as f64 - reff[i]).abs() > tol * scale {
+                return Err(format!("element {}: {:e}, reference {:e}; library {:?} reference {:?}", i, lib[i], reff[i], &lib[..lib.len().min(6)], &reff[..reff.len().min(6)]));
+            }
+        }
+    }
+    Ok(exact)
+}
+
+/// build, install parameters, predict; compare with the reference interpreter (either reading of
+/// "the input fed to layer a" when a skip source is itself a target)
+pub fn predict_vs_ref(net: &Net, params: &[P<f32>], x: &[f32], tol: f64) -> Result<PredictOk, Mismatch> {
+    let shapes = ref_shapes(net).expect("predict_vs_ref: reference must accept the case");
+    let lib = build_with(net, &shapes, params).map_err(Mismatch::Rejected)?;
+    let xt = libnet::tensor(net.input, x);
+    let out = crate::util::guard(|| lib.predict(&xt)).map_err(Mismatch::Panics)?;
+    let (d, v) = libnet::flat_dims(&out).map_err(Mismatch::Shape)?;
+    let last = shapes.last().unwrap();
+    if d != last.out && d != last.out.flat() {
+        return Err(Mismatch::Shape(format!("prediction has shape {}, announced {}", d.name(), last.out.name())));
+    }
+    let x64: Vec<f64> = x.iter().map(|v| *v as f64).collect();
+    let p64 = crate::refmodel::net::to_f64(params);
+    let tr = crate::refmodel::net::forward(net, &shapes, &p64, &x64, false);
+    let want = tr.activated.last().unwrap();
+    let nontrivial = {
+        let mut dd: Vec<i64> = want.iter().filter(|v| **v != 0.0).map(|v| (v * 4096.0) as i64).collect();
+        dd.sort_unstable();
+        dd.dedup();
+        dd.len() >= 2
+    };
+    match compare_out(&v, want, tol) {
+        Ok(exact) => Ok(PredictOk { exact, nontrivial, lib_out: v }),
+        Err(e) => {
+            let chained = net.connects.iter().any(|(a, _)| net.connects.iter().any(|(_, b)| b == a));
+            if chained {
+                let tr2 = crate::refmodel::net::forward(net, &shapes, &p64, &x64, true);
+                if let Ok(exact) = compare_out(&v, tr2.activated.last().unwrap(), tol) {
+                    return Ok(PredictOk { exact, nontrivial, lib_out: v });
+                }
+            }
+            Err(Mismatch::Value(e))
+        }
+    }
+}
